@@ -579,7 +579,8 @@ class Session(BaseSession):
         rows = [(k, None if v is None else str(v)) for k, v in self.variables.list()]
         like = show.text("like")
         if like:
-            rows = [(k, v) for k, v in rows if like_to_regex(like).match(k)]
+            regex = like_to_regex(like)
+            rows = [(k, v) for k, v in rows if regex.fullmatch(k)]
         return rows, ["Variable_name", "Value"]
 
     def _show_status(self, show: exp.Show) -> AllowedResult:
